@@ -2264,8 +2264,16 @@ fn replay_subject(a: &Args, tr: &mut Tracer, name: &str, idx: usize, behaviours:
         10 // ~2 ms per put
     } else if name.contains("dictzip") {
         // dictionary training per rebuilt store: a seeded half / sixth of the behaviours
-        if name == "dictzip:small" { 2 } else { a.get_u64("stride_dz", 6) }
+        // (the thorough tier has 17x the behaviours: wider strides keep the slowest subject within minutes)
+        match (name == "dictzip:small", a.thorough()) {
+            (true, false) => 2,
+            (true, true) => 8,
+            (false, false) => a.get_u64("stride_dz", 6),
+            (false, true) => 16,
+        }
     } else if name == "stack:zstd_zstd_mem" || name == "trie:security" {
+        3
+    } else if a.thorough() && name.starts_with("zstd:mem_l") {
         3
     } else {
         1
